@@ -237,8 +237,14 @@ QRY = {"k": "obj", "n": "", "props": [{"key": "q1", "vk": "int", "vn": ""}], "al
 def render_pathdecl(o, depth, names):
     if names and o.style.flip(o.style.pathref):
         k = len(o.private_types) + 1
-        form = o.style.rnd.randrange(3)
+        form = o.style.rnd.randrange(4)
         props = ['  "%s": 1%s' % (n, "," if i < len(names) - 1 else "") for i, n in enumerate(names)]
+        if form == 3 and len(names) >= 2:
+            # an inline object that inherits its first property
+            o.private_types.append(["TYPE @zr_b%d" % k, "{", '  "%s": 1' % names[0], "}"])
+            o.line(depth, "Path", "Path")
+            o.lines(depth, ['{ // {allOf: "@zr_b%d"}' % k] + ['  "%s": 1%s' % (n, "," if i < len(names) - 2 else "") for i, n in enumerate(names[1:])] + ["}"])
+            return
         if form == 2 and len(names) >= 2:
             # the first property comes from a base type
             o.private_types.append(["TYPE @zr_b%d" % k, "{", '  "%s": 1' % names[0], "}"])
